@@ -65,15 +65,15 @@ type c03Env struct {
 	// ready state); only its tail entry is known.
 	base ReplicaState
 
-	probes, fetches                            int
-	loads, syncs, replaces, storeFetches       int
-	lookups                                    int
-	localSubmits, replicaSubmits               int
-	folDurableAcks                             int
-	lastLocal                                  durableProposal
+	probes, fetches                      int
+	loads, syncs, replaces, storeFetches int
+	lookups                              int
+	localSubmits, replicaSubmits         int
+	folDurableAcks                       int
+	lastLocal                            durableProposal
 }
 
-func (e *c03Env) dispatches() int { return e.localSubmits + e.replicaSubmits }
+func (e *c03Env) dispatches() int  { return e.localSubmits + e.replicaSubmits }
 func (e *c03Env) storeWrites() int { return e.syncs + e.replaces }
 func (e *c03Env) portCalls() int {
 	return e.probes + e.fetches + e.loads + e.syncs + e.replaces + e.storeFetches + e.lookups + e.localSubmits + e.replicaSubmits
@@ -315,8 +315,11 @@ func c03Record(name string, epoch uint64) ch.Record {
 	}
 	r := ch.Record{ID: zzsym.U64(name + ".id"), Epoch: epoch, Setting: zzsym.U8(name + ".setting"),
 		FromUID: zzsym.String(name+".from", fromLen), ClientMsgNo: zzsym.String(name+".no", noLen),
-		ServerTimestampMS: zzsym.I64(name + ".ts"), SyncOnce: zzsym.Bool(name + ".synconce"),
-		Payload: zzsym.Bytes(name+".payload", payloadLen), SizeBytes: payloadLen}
+		ServerTimestampMS: zzsym.I64(name + ".ts"),
+		Payload:           zzsym.Bytes(name+".payload", payloadLen), SizeBytes: payloadLen}
+	if zzsym.Thorough() {
+		r.SyncOnce = zzsym.Bool(name + ".synconce") // forks at every digest computation (a hash write per value)
+	}
 	zzsym.Assume(r.ID != 0 && r.ServerTimestampMS > 0)
 	return r
 }
@@ -337,15 +340,10 @@ func c03SameContent(a, b []ch.Record) bool {
 	same := true
 	for i := range a {
 		x, y := a[i], b[i]
-		if x.ID != y.ID || x.Epoch != y.Epoch || x.Setting != y.Setting || x.FromUID != y.FromUID || x.ClientMsgNo != y.ClientMsgNo ||
-			x.ServerTimestampMS != y.ServerTimestampMS || x.SyncOnce != y.SyncOnce || len(x.Payload) != len(y.Payload) {
-			same = false
-			continue
-		}
-		for k := range x.Payload {
-			if x.Payload[k] != y.Payload[k] {
-				same = false
-			}
+		same = same && x.ID == y.ID && x.Epoch == y.Epoch && x.Setting == y.Setting && x.FromUID == y.FromUID && x.ClientMsgNo == y.ClientMsgNo &&
+			x.ServerTimestampMS == y.ServerTimestampMS && x.SyncOnce == y.SyncOnce && len(x.Payload) == len(y.Payload)
+		for k := 0; k < len(x.Payload) && k < len(y.Payload); k++ {
+			same = same && x.Payload[k] == y.Payload[k]
 		}
 	}
 	return same
@@ -356,7 +354,6 @@ func c03Command(tag byte) ch.CommandID {
 	id[31] = tag
 	return id
 }
-
 
 // c03Digest: digests of the pre-existing frontier are opaque to the code under test (compared with
 // zero and fed into the next entry's hash stream): a non-zero constant in quick, symbolic bytes in
@@ -651,10 +648,10 @@ func Harness_C03_PendingBlocks() {
 // meets a definite conflict, and is reconciled through the durable command index
 // ---------------------------------------------------------------------------------------------
 
-func c03EvictedSetup() (*c03Env, *quorumLog, *quorumChannel, Authority, Proposal, Receipt, Proposal, Receipt) {
+func c03EvictedSetup(topologies int) (*c03Env, *quorumLog, *quorumChannel, Authority, Proposal, Receipt, Proposal, Receipt) {
 	env := &c03Env{}
 	l := c03NewLog(env, 1)
-	a := c03Authority("A", 2)
+	a := c03Authority("A", topologies)
 	f := c03Frontier()
 	s := c03ReadyChannel(l, env, a, f)
 	zzsym.Assume(f.LEO < ^uint64(0)-8)
@@ -672,7 +669,7 @@ func c03EvictedSetup() (*c03Env, *quorumLog, *quorumChannel, Authority, Proposal
 }
 
 func Harness_C03_EvictedRetry() {
-	env, l, s, a, p1, r1, _, r2 := c03EvictedSetup()
+	env, l, s, a, p1, r1, _, r2 := c03EvictedSetup(2)
 	after2 := s.frontier
 	logLen := len(env.log)
 	exact := zzsym.Choice("retry.exact", 2) == 0
@@ -721,7 +718,7 @@ func Harness_C03_EvictedRetry() {
 // answers from every voter. The property (retry-stable receipts after eviction) asks for the
 // original receipt.
 func Harness_C03_EvictedRetryAfterLostResponse() {
-	env, l, s, a, p1, r1, _, _ := c03EvictedSetup()
+	env, l, s, a, p1, r1, _, _ := c03EvictedSetup(1) // voters {1,2,3}, write quorum 2
 	retry := Proposal{Key: c03Key, Expected: a.ID, CommandID: p1.CommandID, Records: cloneRecords(p1.Records)}
 	// round 1: the local store answers Conflict, one follower is unreachable
 	env.localPlan, env.folPlan = []int{c03LocalHonest}, []int{c03FolUnknown, c03FolUnknown}
@@ -788,5 +785,49 @@ func Harness_C03_Restart() {
 	} else {
 		zzsym.Reach("restart: other content")
 		zzsym.Assert(err != nil && errors.Is(err, ch.ErrLogConflict) && got == (Receipt{}), "different content under a durable command id after restart was not rejected with ErrLogConflict")
+	}
+}
+
+// Harness_C03_RetryUnderNewerAuthority: the owner is re-installed under a newer leader term of the
+// same channel epoch (barrier written), then the command acknowledged under the old term is retried
+// with identical content. Safety part of the property: nothing is stored again and no different
+// range is acknowledged. (What the code answers is recorded by the reach labels: the durable
+// command index holds the proposal under the OLD authority, which loadRetainedProposal refuses.)
+func Harness_C03_RetryUnderNewerAuthority() {
+	env := &c03Env{probeMode: 1, loadMode: 1}
+	l := c03NewLog(env, 2)
+	a := c03Authority("A", 2)
+	_, err := l.Install(context.Background(), a)
+	zzsym.Assert(err == nil, "Install over the empty log failed")
+	p1 := Proposal{Key: c03Key, Expected: a.ID, CommandID: c03Command(1), Records: c03Records("r1", a.ID.ChannelEpoch, 1)}
+	c03Durable(env)
+	r1, err := l.Commit(context.Background(), p1)
+	zzsym.Assert(err == nil && r1.First == 1 && r1.Last == 1, "first Commit after Install was not acknowledged at 1")
+	if err != nil {
+		return
+	}
+	b := a
+	b.ID.LeaderTerm = zzsym.U64("B.term")
+	b.ID.FenceVersion = zzsym.U64("B.fence")
+	zzsym.Assume(b.ID.LeaderTerm > a.ID.LeaderTerm && b.ID.FenceVersion != 0)
+	barrier, _ := recoveryBarrierContent(b)
+	zzsym.Assume(barrier != c03Command(1)) // the barrier's SHA-256 command id is not the constant 00..01
+	c03Durable(env)
+	installed, err := l.Install(context.Background(), b)
+	zzsym.Assert(err == nil && installed == Installed{Authority: b.ID, LEO: 2, HW: 2}, "Install of a newer leader term did not write its barrier at 2")
+	if err != nil {
+		return
+	}
+	s := l.channels[c03Key]
+	logLen := len(env.log)
+	retry := Proposal{Key: c03Key, Expected: b.ID, CommandID: p1.CommandID, Records: cloneRecords(p1.Records)}
+	env.localPlan, env.folPlan = []int{c03LocalHonest}, []int{c03FolConflict, c03FolConflict}
+	got, err := l.Commit(context.Background(), retry)
+	zzsym.Observe("newer", zzsym.B2U(err != nil), got.First, got.Last)
+	zzsym.Assert(len(env.log) == logLen && s.frontier.LEO == 2, "retry under a newer authority stored something or moved the frontier")
+	zzsym.Assert(err != nil || (got.First == r1.First && got.Last == r1.Last), "retry under a newer authority was acknowledged with a different range")
+	if err != nil && errors.Is(err, ch.ErrLogConflict) {
+		zzsym.Reach("newer authority: exact retry answered ErrLogConflict")
+		zzsym.Assert(s.pending == nil, "definite conflict left a pending proposal")
 	}
 }
